@@ -985,7 +985,7 @@ package seccomp
 //@ func (p *Policy) Assemble() ([]bpf.Instruction, error)   properties C01 C03 C04 C05 C07 C13
 //@   deterministic C13
 //@   frame_props C13
-//@   opaque groupValidN polDone polRel groupMatchesN closed strictClosed subBlock retsActUpTo run infoInj
+//@   opaque groupValidN polDone polRel groupMatchesN closed strictClosed subBlock retsActUpTo run infoInj retsPolicy
 //@   requires p != nil
 //@   requires @api_groups forall(i, 0, len(p.Syscalls), p.Syscalls[i].arch == nil)
 //@   modifies p
@@ -1003,6 +1003,10 @@ package seccomp
 //@   ensures @accepted {C07!} old(p.arch) != nil && knownAction(dflt) && len(gs) > 0 && forall(i, 0, len(gs), groupValidF(*old(p.arch), gs[i])) && policyListsNonEmpty(gs) && infoInj(*old(p.arch)) ==> result1 == nil
 //@   ensures @closed {C05} result1 == nil ==> closed(result0) && len(result0) >= 4
 //@   ensures @kernel {C05} result1 == nil && len(result0) <= 4096 ==> kernelAccepts(result0)
+//@   ensures @rets {C05} result1 == nil ==> retsPolicy(result0, *p.arch, dflt, gs)
+//@   use retsPolicyBlock(instructions, ins1, end.instructions, *p.arch, dflt, gs) at exit
+//@   use retsPolicyPrefix(program, prog7, instructions, *p.arch, dflt, gs) at exit
+//@   hint @rp {C05} result1 == nil ==> len(prog7) <= 6 && (isRet(program[0]) ==> retValOK(unbox(program[0], bpf.RetConstant).Val, *p.arch, dflt, gs)) && (isRet(program[1]) ==> retValOK(unbox(program[1], bpf.RetConstant).Val, *p.arch, dflt, gs)) && (isRet(program[2]) ==> retValOK(unbox(program[2], bpf.RetConstant).Val, *p.arch, dflt, gs)) && (3 < len(prog7) && isRet(program[3]) ==> retValOK(unbox(program[3], bpf.RetConstant).Val, *p.arch, dflt, gs)) && (4 < len(prog7) && isRet(program[4]) ==> retValOK(unbox(program[4], bpf.RetConstant).Val, *p.arch, dflt, gs)) && (5 < len(prog7) && isRet(program[5]) ==> retValOK(unbox(program[5], bpf.RetConstant).Val, *p.arch, dflt, gs)) at exit
 //@   use emptyBlock(instructions, gs) at before loop 1
 //@   use polRelZero(*p.arch, gs) at before loop 1
 //@   use runStep(instructions, 0, nr) at before loop 1
@@ -1077,6 +1081,12 @@ package seccomp
 //@     invariant @sem {C01 C03} policyListsNonEmpty(gs) ==> polRel(*p.arch, gs, k, run(instructions, 0, nr))
 //@     invariant @c07 {C07} forall(i, 0, k, groupValidF(*p.arch, gs[i]))
 
+// C05, closed return set of the whole program: the group blocks return group actions (retsActUpTo), the block ends in
+// the return of the default action, and the explicit prologue contains no return except ERRNO(ENOSYS) on x86_64
+//@ lemma retsPolicyBlock(Q []bpf.Instruction, P []bpf.Instruction, E []bpf.Instruction, ai arch.Info, dflt Action, gs []SyscallGroup)
+//@   ensures isCat(Q, P, E) && retsActUpTo(P, gs, len(gs)) && len(E) == 1 && isRetOf(E[0], enc(dflt)) ==> retsPolicy(Q, ai, dflt, gs)
+//@ lemma retsPolicyPrefix(R []bpf.Instruction, P []bpf.Instruction, Q []bpf.Instruction, ai arch.Info, dflt Action, gs []SyscallGroup)
+//@   ensures isCat(R, P, Q) && retsPolicy(Q, ai, dflt, gs) && forall(j, 0, len(P), isRet(R[j]) ==> retValOK(unbox(R[j], bpf.RetConstant).Val, ai, dflt, gs), trig(R[j])) ==> retsPolicy(R, ai, dflt, gs)
 //@ lemma catStrict(R []bpf.Instruction, P []bpf.Instruction, Q []bpf.Instruction)
 //@   ensures isCat(R, P, Q) && closed(P) && strictClosed(Q) && len(Q) >= 1 ==> strictClosed(R)
 //@ lemma catStrictPrefix(R []bpf.Instruction, P []bpf.Instruction, Q []bpf.Instruction)
